@@ -1651,7 +1651,9 @@ func (self *Fork) expandForkFromObj(
 	ref fmt.GoStringer,
 	result []ForkId) ([]ForkId, error) {
 	if obj == nil {
-		if len(self.node.forks)-1 > self.index {
+		{
+			// The part is shared with the forks expanded later and
+			// with the node's table of fork sources.
 			pc := *part
 			part = &pc
 			self.forkId[i] = part
@@ -1677,7 +1679,9 @@ func (self *Fork) expandForkFromObj(
 			}
 		}
 		if n == 0 {
-			if len(self.node.forks)-1 > self.index {
+			{
+				// The part is shared with the forks expanded later and
+				// with the node's table of fork sources.
 				pc := *part
 				part = &pc
 				self.forkId[i] = part
@@ -1687,7 +1691,9 @@ func (self *Fork) expandForkFromObj(
 			self.writeDisable()
 			return nil, nil
 		} else if n == 1 {
-			if len(self.node.forks)-1 > self.index {
+			{
+				// The part is shared with the forks expanded later and
+				// with the node's table of fork sources.
 				pc := *part
 				part = &pc
 				self.forkId[i] = part
@@ -1745,7 +1751,9 @@ func (self *Fork) expandForkFromObj(
 			}
 		}
 		if len(keys) == 0 {
-			if len(self.node.forks)-1 > self.index {
+			{
+				// The part is shared with the forks expanded later and
+				// with the node's table of fork sources.
 				pc := *part
 				part = &pc
 				self.forkId[i] = part
@@ -1756,7 +1764,9 @@ func (self *Fork) expandForkFromObj(
 			return nil, nil
 		}
 		if len(keys) == 1 {
-			if len(self.node.forks)-1 > self.index {
+			{
+				// The part is shared with the forks expanded later and
+				// with the node's table of fork sources.
 				pc := *part
 				part = &pc
 				self.forkId[i] = part
